@@ -280,6 +280,22 @@ Definition agent_event (tasks : positive -> option task) (ns : gmap positive nod
   | EvUnbind tid nid => match ns !! nid with Some n => <[nid := node_remove n tid]> ns | None => ns end
   end.
 
+(* ---- bind execution of the agent cache over a BATCH (cache.go processBindTask / BindTask with
+   BATCH_BIND_NUM contexts; a context is a (task, node) pair accepted by AddBindTask):
+   executePreBinds visits every context -- a failing PreBind resyncs ITS task (off the node) and the
+   context is skipped --, the others are handed to Binder.Bind in ONE call; Bind answers with a
+   failure PER TASK (errMsg[task.UID]) and exactly the tasks it names are resynced.  The others are
+   bound by the API server and stay charged.  Both phases are folds of the single-context step. *)
+Definition flow_unbind (tasks : positive -> option task) (fails : list positive) (ns : gmap positive node) (p : positive * positive) : gmap positive node :=
+  if bool_decide (fst p ∈ fails) then agent_event tasks ns (EvUnbind (fst p) (snd p)) else ns.
+Definition flow_pass (fails : list positive) (pending : list (positive * positive)) : list (positive * positive) :=
+  List.filter (fun p => negb (bool_decide (fst p ∈ fails))) pending.
+Definition flow_batch (tasks : positive -> option task) (pre_fails bind_fails : list positive) (ns : gmap positive node)
+    (pending : list (positive * positive)) : gmap positive node * list (positive * positive) :=
+  let handed := flow_pass pre_fails pending in
+  (fold_left (flow_unbind tasks bind_fails) handed (fold_left (flow_unbind tasks pre_fails) pending ns),
+   flow_pass bind_fails handed).
+
 Inductive cache_op := OpBind (r : bind_req) | OpEv (e : cache_ev).
 
 Definition cache_step (c : cache) (o : cache_op) : cache * bind_res :=
